@@ -46,3 +46,23 @@ def pick(x, *, flip=False):
 def use_pick_flipped(x):
     # a call that passes a keyword the first contract case of pick() does not list must not be given that case
     return pick(x, flip=True)
+
+
+def at(xs, i):
+    # Python's index rule: -len <= i < 0 addresses len + i, anything outside [-len, len) raises IndexError
+    return xs[i]
+
+
+def cond_bound(n):
+    if n > 0:
+        d = 1
+    i = 0
+    while i < n:
+        i += d          # d is bound on every path that gets here
+    return i
+
+
+def cond_bound_broken(n):
+    if n > 0:
+        d = 1
+    return d            # UnboundLocalError when n <= 0
